@@ -534,6 +534,11 @@ fn exhaustive(out: &mut Out, idx: &mut u64, n: usize, k: usize, seed: u64) {
 pub fn run(args: &Args, out: &mut Out) {
     crate::clock::freeze();
     if let Some(cases) = args.replay_cases() {
+        // Swarm-level cases (header token `sw=1`) are replayed by the swarm harness
+        if cases.iter().any(|(hdr, _)| hdr.iter().any(|t| t == "sw=1")) {
+            h_swarm::core::run(args, out);
+            return;
+        }
         for (i, (_, ops)) in cases.iter().enumerate() {
             out.case(i as u64, "replay nt=1");
             let mut sut = Sut::empty();
@@ -577,4 +582,7 @@ pub fn run(args: &Args, out: &mut Out) {
         gen_case(out, idx, if smart { "smart" } else { "random" }, smart, n, k, &mut rng, args.seed);
         idx += 1;
     }
+    // Swarm-level part of the property (`Swarm::dial` hands every address to the transport at most once,
+    // every attempted address is reported exactly once): dial-focused scripts of the swarm harness
+    h_swarm::core::run(args, out);
 }
